@@ -11,6 +11,14 @@ import (
 func init() {
 	register("C11", "Structural clause decided: SMPEventSuccess is raised in exactly two places, each behind the verification of the peer's proofs and the final comparison (Rab against Pa/Pb), and every full-success path of the two final handlers raises it while the comparison-failed path raises SMPEventFailure and aborts; the compared quantities are the specified ones; the SMP secret is the hash of (version byte, initiator fingerprint, responder fingerprint, session id, the user's secret exactly as given) with the two fingerprints mirrored between the initiating and the answering side, derived afresh on every start/answer and only in an encrypted session, and it is this secret that enters the exponent computations. Not decided: the algebra (equal secrets ⇒ success, different ⇒ failure), man-in-the-middle relays (follows from the binding, not decided).",
 		func(a *An) {
+			// the SMP messages of one conversation are built from that conversation's values only: nothing on the SMP paths
+			// writes, or hands to a mutating library call, memory shared between messages or conversations (a pooled buffer)
+			smpFns := map[*ssa.Function]bool{}
+			for _, f := range a.reachableFns("(*Conversation).receiveSMP", "(*Conversation).processSMPTLV", "(*Conversation).StartAuthenticate", "(*Conversation).ProvideAuthenticationSecret", "(*Conversation).AbortAuthentication", "(tlv).smpMessage") {
+				smpFns[f] = true
+			}
+			a.globalEffectsOn("E.smp-shared", smpFns, 20)
+			a.globalEscapesOn("E.smp-shared-args", smpFns)
 			a.smpAcceptConditions("P.smp-accept")
 			// the identity hashed into the secret is the long-term key the peer authenticated: it is chosen when the version is
 			// committed and by nothing else
